@@ -16,6 +16,18 @@ claimed = {
              text='Proved for every failure offset and every Read partition: Packet.ReadFrom returns nil, or an error matching io.EOF, only together with a complete packet whose body equals the stream bytes; any other return is an error that occurs only if the transport failed or the context is done; a partial header is never reported as io.EOF. Hence the dispatcher, which forwards a packet only on nil or io.EOF, never forwards incomplete data; incomplete package data inside complete packets is reported as ErrNotEnoughBytes (C07). Proof level for these per-function statements.',
              note='Time bounds (read timeout) and the absence of a spurious final DONE after a failure are whole-history statements over the reader goroutine and are not mechanised; Conn.ReadFrom itself is outside the generator (maps of pointers, goroutines).',
              ref='3 C14'),
+ 'C03': dict(tech='contract-based deductive verification: send-site obligations (onsend / channel invariant) on the receive dispatcher and reply-script ghosts on the consumer functions, VCs from go/ssa, z3/cvc5',
+             text='Proved for all queue states: the receive path hands the consumer only completely parsed packages or the synthetic final DONE; the synthetic DONE is created only at the end of a message that carried the end-of-message flag and only if the last delivered package was not already a final DONE; isDoneFinal is exactly DONE with status 0; NextPackage and NextPackageUntil return the last package they consumed. Proof level for these per-function statements.',
+             note='Draining after a callback error, exactly-once delivery across several request/response rounds and the interaction with Reset are whole-history statements that the contracts cannot express here (closures, goroutines); they are not mechanised.',
+             ref='3 C03'),
+ 'C08': dict(tech='contract-based deductive verification: postconditions of Login over a ghost reply script maintained by the NextPackage contract, VCs from go/ssa, z3/cvc5',
+             text='Proved for every reply script: Login returns success in the plain flow only for LOGINACK(SUCCEED) followed by DONE(final), and in the encrypted flow only for a script that starts LOGINACK(NEGOTIATE), MSG(ENCRYPT4), PARAMFMT, PARAMS, DONE and ends CAPABILITY, DONE(final); weaker encryption methods are rejected; the acknowledgement filter accepts exactly LOGINACK(SUCCEED); an announced packet size is taken over only if 8 < size <= 65535. Proof level for these per-function statements (the only-if direction of the property).',
+             note='The if direction (a valid acceptance always yields success), timing (context expiry) and the cryptographic steps are not mechanised. Two genuine defects were repaired (non-final DONE accepted; unvalidated packet size).',
+             ref='3 C08'),
+ 'C09': dict(tech='contract-based deductive verification: byte-level layout contract of the login record over a ghost buffer stream, VCs from go/ssa, z3/cvc5',
+             text='Proved for all passwords, names and configurations: with an encrypting message id configured the password slot of the login record (value bytes and length byte) is all zero, the remote-server password slot is zero in every configuration, oversized fields are rejected and never truncated or shifted; the plain flow puts the password into the slot (control). Proof level for the login-record half of the property.',
+             note='The other half (what is sent instead decrypts under the server key with fresh randomness; no password in error texts) depends on crypto/rsa, crypto/rand and fmt and is not mechanised; it is not claimed.',
+             ref='3 C09'),
  'C07': dict(tech='contract-based deductive verification: interface contract on Package/FieldFmt/FieldData.ReadFrom over a ghost byte stream, VCs from go/ssa, z3/cvc5',
              text='Every parser implementation is proved, for all inputs and loop iterations, to return an error matching ErrNotEnoughBytes whenever the abstract stream ran dry during the call, and to leave the dry flag unchanged on success. Proof level because the claim is a per-function postcondition that the VC generator discharges without bounds.',
              note='Assumes the BytesChannel contract (stream semantics) for the channel passed in, closed world of FieldFmt/FieldData/Package implementations, sentinel error variables never reassigned, integers modelled mathematically with explicit wrap, goroutines not modelled. Re-parse after rollback (fresh package per attempt) is part of C02.',
